@@ -536,6 +536,9 @@ func (m *FeeMonitor) OnTx(h *Hist, tx *TxRec) {
 				h.Violate("fee-limit-wrong-error", fmt.Sprintf("over-limit request rejected with %s/%d %s", tx.Res.Codespace, tx.Res.Code, tx.Res.Log))
 			}
 		}
+		if within && tx.Res.Codespace == bandtsstypes.ModuleName && tx.Res.Code == bandtsstypes.ErrFeeExceedsLimit.ABCICode() {
+			h.Violate("fee-limit-false-reject", fmt.Sprintf("request with cost %s and limit %s rejected as over the limit: %s", total, msg.FeeLimit, tx.Res.Log))
+		}
 		return // no transfer expected: balances compared at block end
 	}
 	// accepted: escrow total
